@@ -78,40 +78,71 @@ func (c *Client) readLoop() {
 	buf := make([]byte, 256*1024)
 	for {
 		n, err := c.Conn.Read(buf)
-		now := time.Now()
-		c.mu.Lock()
-		if n > 0 {
-			c.total += n
-			c.pending = append(c.pending, buf[:n]...)
-			for len(c.pending) > 0 && c.badResp == nil {
-				m, perr := refmodel.ScanReply(c.pending)
-				if perr == refmodel.ErrNeedMore {
-					break
-				}
-				if perr != nil {
-					c.badResp = perr
-					break
-				}
-				c.replies = append(c.replies, Reply{Raw: append([]byte(nil), c.pending[:m]...), Time: now})
-				c.pending = c.pending[m:]
-			}
-			if len(c.pending) == 0 {
-				c.pending = nil
-			}
-		}
-		if err != nil {
-			c.eof = true
-			c.eofAt = now
-			if err != io.EOF {
-				c.readErr = err
-			}
-			c.cond.Broadcast()
-			c.mu.Unlock()
+		if c.feed(buf[:n], err) {
 			return
 		}
-		c.cond.Broadcast()
-		c.mu.Unlock()
 	}
+}
+
+// feed takes what one read returned; it reports whether the stream ended.
+func (c *Client) feed(b []byte, err error) bool {
+	now := time.Now()
+	c.mu.Lock()
+	defer c.mu.Unlock()
+	defer c.cond.Broadcast()
+	if n := len(b); n > 0 {
+		c.total += n
+		c.pending = append(c.pending, b...)
+		for len(c.pending) > 0 && c.badResp == nil {
+			m, perr := refmodel.ScanReply(c.pending)
+			if perr == refmodel.ErrNeedMore {
+				break
+			}
+			if perr != nil {
+				c.badResp = perr
+				break
+			}
+			c.replies = append(c.replies, Reply{Raw: append([]byte(nil), c.pending[:m]...), Time: now})
+			c.pending = c.pending[m:]
+		}
+		if len(c.pending) == 0 {
+			c.pending = nil
+		}
+	}
+	if err != nil {
+		c.eof = true
+		c.eofAt = now
+		if err != io.EOF {
+			c.readErr = err
+		}
+		return true
+	}
+	return false
+}
+
+// ReadExactly (for a DialNoRead client whose reader has not been started) reads n more bytes from the
+// connection, or fewer if nothing arrives for idle; it returns how many it read.
+func (c *Client) ReadExactly(n int, idle time.Duration) int {
+	buf := make([]byte, 64*1024)
+	got := 0
+	for got < n {
+		want := n - got
+		if want > len(buf) {
+			want = len(buf)
+		}
+		c.Conn.SetReadDeadline(time.Now().Add(idle))
+		k, err := c.Conn.Read(buf[:want])
+		got += k
+		if ne, ok := err.(net.Error); ok && ne.Timeout() {
+			c.feed(buf[:k], nil)
+			break
+		}
+		if c.feed(buf[:k], err) {
+			break
+		}
+	}
+	c.Conn.SetReadDeadline(time.Time{})
+	return got
 }
 
 // Write sends b in one write call.
